@@ -519,7 +519,10 @@ def facet_hole_types(F, X):
 def facet_table(ck, F, X):
     from rules.c07 import FACETS
     # (a) reader: build_restrictions fills model field f from XSD facet name
-    b = F.lib.body("model::structures::restrictions::build_restrictions")
+    from rules import anchors as A_
+    builders = [f_["path"] for f_ in A_._fn_items(F) if A_._norm_ty(f_["output"]) == "model::structures::restrictions::Restrictions"
+                and any("roxmltree::Node<" in A_._norm_ty(x) for x in f_["inputs"])]
+    b = F.lib.body(builders[0]) if len(builders) == 1 else None     # the function that reads a <restriction> into the model
     read_tab = {}
     if b is None:
         ck.undecided("R4", "build_restrictions", "-", "function building the model Restrictions not found")
@@ -571,6 +574,18 @@ def facet_table(ck, F, X):
             W.walk_fn(b["path"], cb)
         except og.Unrecognised as u:
             ck.undecided("R4", "reader-row-shape", b["span"], f"facet extraction of unrecognised shape: {u.what}")
+        # a struct literal `Restrictions { min_inclusive: facet("minInclusive"), .. }` (in the builder or in a helper of it)
+        CEr = og.CallExpander(F)
+        for (fn_, site_, ctx_, fields_, base_) in og.field_summaries(F, "structures::restrictions::Restrictions"):
+            if fn_ != b["path"]:
+                continue
+            for f_, v_ in fields_.items():
+                names = lits_of(CEr.expand(v_))
+                if f_ == "enumeration" and not names:
+                    continue
+                for l in dict.fromkeys(names):
+                    if (l, site_) not in read_tab.get(f_, []):
+                        read_tab.setdefault(f_, []).append((l, site_))
         nb = Hh.norm_body(b)
         # enumeration: collected from the children whose tag is "enumeration", attribute "value"
         lits = [y.get("v") for y in Hh.exprs(nb["value"]) if y.get("k") == "Lit" and y.get("lit") == "str"]
